@@ -405,3 +405,14 @@ M("state-module-memo-stale", "C14", CFD + "heavy/n3lo/__init__.py", "    if grid
   more=[(CFD + "heavy/n3lo/__init__.py", "    interpolators[grid_name] = grid_interpolator", "    interpolators[key] = grid_interpolator")])
 M("c15-pids-revert", "C15", OUF, '        out["pids"] = np.array(self["pids"]).tolist()', '        out["pids"] = list(self["pids"])', expect="C15.roundtrip")
 M("c15-tar-dict-revert", "C15", OUF, "                    if isinstance(metavalue, dict):\n                        # e.g. the grid of an output loaded from YAML is an array\n                        metadata[metafield] = {\n                            k: np.array(v).tolist() for k, v in metavalue.items()\n                        }\n                    else:\n                        metadata[metafield] = np.array(metavalue).tolist()", "                    metadata[metafield] = np.array(metavalue).tolist()", expect="C15.roundtrip")
+
+# ----------------------------------------------------------------------------- twins for the round-5 strengthenings
+B("c04-series-near-one-correct", "C04", CFD + "light/nlo/f2.py",
+  "    return CF*(\n        - 2 * (1 + z) * np.log((1 - z) / z)\n        - 4 * np.log(z) / (1 - z)\n        + 6 + 4 * z\n    )",
+  "    omz = 1.0 - z\n    if omz < 1e-5:\n        lnz_omz = -(1.0 + omz / 2.0 + omz**2 / 3.0)\n    else:\n        lnz_omz = np.log(z) / omz\n    return CF*(\n        - 2 * (1 + z) * np.log(omz / z)\n        - 4 * lnz_omz\n        + 6 + 4 * z\n    )")
+B("c06-inlined-count-right", "C06", CFD + "__init__.py", "        self.nf = nf_default(esf.Q2, esf.info.threshold)",
+  "        self.nf = 2 + int(np.searchsorted(esf.info.threshold.walls, esf.Q2, side=\"right\"))")
+M("c06-inlined-count-left", "C06", CFD + "__init__.py", "        self.nf = nf_default(esf.Q2, esf.info.threshold)",
+  "        self.nf = 2 + int(np.searchsorted(esf.info.threshold.walls, esf.Q2))", expect="C06.boundary")
+B("c02-drop-empty-exact", "C02", CFD + "__init__.py", "if w != 0}", "if not (w == 0)}")
+B("c18-callers-empty-array", "C18", CFD + "asy/f2_cc.py", "split.lo.pqg_single(z, np.array([], dtype=float))", "split.lo.pqg_single(z, np.zeros(0))")
